@@ -389,6 +389,8 @@ impl SocksResponse {
     }
     async fn read_v4<IO: RW>(socket: &mut IO) -> Result<Self, Error> {
         let cmd = socket.read_u8().await.context("read cmd")?;
+        // 90 is "request granted" in SOCKS4; callers compare with the v5 code (write_v4 maps it back)
+        let cmd = if cmd == 90 { SOCKS_REPLY_OK } else { cmd };
         let dport = socket.read_u16().await.context("read port")?;
         let dst = socket.read_u32().await.context("read dst")?;
         let target = (dst, dport).into();
